@@ -166,6 +166,7 @@ func verifGetter(m *verifMon, k int, buf netpoll.Writer) WriterGetter {
 
 func verifQueue(size int) (*ShardQueue, *verifMon) {
 	verifInj = nil
+	verifLockInject = false
 	runner.RunTask = verifRunTask
 	m := &verifMon{connOpen: 1}
 	w := &verifWriter{m: m}
